@@ -340,37 +340,60 @@ def r3(ctx):
             ctx.violation("accessor/%s/predicates" % col, ctx.where(GFV, a["body"]),
                           "column %s passes %s to check_file_mode, expected (mode::%s, mode::%s)" % (col, fnrefs, meta_fn, mode_fn))
     # check_file_mode applies the u32 predicate to the archive mode and the Metadata predicate to the entry
+    # check_file_mode evaluated (finite interpreter) on every state: the entry proper / an archive member with / without a
+    # stored mode  x  lstat record available / not: the Metadata predicate is applied to the entry's own lstat record, the u32
+    # predicate to the member's own stored mode, and a member without a stored mode answers false - never with the bits of
+    # the archive file that contains it
     ch = ctx.anchor_hir("searcher::Searcher::check_file_mode")
     import norm
+    import interp
     cfm = ctx.prog.fn("searcher::Searcher::check_file_mode")
     by_ty = list(zip(cfm["params"], norm.param_types(cfm.get("sig"))))
     meta_p = [p_["id"] for p_, t_ in by_ty if "Fn(" in t_ and "Metadata" in t_]
     bits_p = [p_["id"] for p_, t_ in by_ty if "Fn(" in t_ and "Metadata" not in t_ and "u32" in t_]
-    locs = Locals(ch)
-    calls = {}
+    info_p = [p_["id"] for p_, t_ in by_ty if "FileInfo" in t_]
+    self_p = [p_["id"] for p_, t_ in by_ty if "Searcher" in t_]
+    problems = []
+    nsc = 0
+    if not (len(meta_p) == len(bits_p) == len(info_p) == len(self_p) == 1):
+        problems.append("its parameters are no longer (searcher, entry, Metadata predicate, archive member, u32 predicate): %s" % [t_ for _, t_ in by_ty])
+    else:
+        for member in ("entry", "member-with-mode", "member-without-mode"):
+            for lstat in (True, False):
+                applied = []
 
-    def provenance(e, depth=6):
-        """rendering of where a value comes from: single-assignment locals and payload binders (`if let Some(x) = e`) chased"""
-        out = []
-        while depth:
-            e = peel(locs.chase(e))
-            out.append(render(e))
-            if e["k"] == "Path" and e.get("rk") == "Local" and e["res"] in locs.payload_defs:
-                e = locs.payload_defs[e["res"]]
-                depth -= 1
-                continue
-            break
-        return " <- ".join(out)
-    for x in walk_exprs(ch):
-        if x["k"] == "Call" and peel(x["f"])["k"] == "Path" and peel(x["f"]).get("rk") == "Local" and x["args"]:
-            pid = peel(x["f"])["res"]
-            calls["metadata" if pid in meta_p else ("bits" if pid in bits_p else "?")] = provenance(x["args"][0])
-    ok = len(meta_p) == 1 and len(bits_p) == 1 and set(calls) == {"metadata", "bits"} and \
-        "file_metadata" in calls["metadata"] and ".mode" in calls["bits"] and "file_metadata" not in calls["bits"]
-    ctx.obligation(bool(ok))
-    if not ok:
+                def call(node, recv, args, it, env, applied=applied):
+                    callee = str(node.get("callee", ""))
+                    if callee in ("META", "BITS"):
+                        applied.append((callee, args[0] if args else None))
+                        return (True,)
+                    if node.get("m") == "update_file_metadata" or callee.endswith("::update_file_metadata"):
+                        return ((),)
+                    if callee.endswith("Variant::from_bool") and args and isinstance(args[0], bool):
+                        return ({"__bool": args[0]},)
+                    return None
+                fms = interp.LazySelf({"file_metadata": interp.some("LSTAT") if lstat else interp.NONE, "file_metadata_set": True})
+                env = {p_["id"]: interp.Opaque(p_.get("name") or "?") for p_, _ in by_ty}
+                env[self_p[0]] = interp.LazySelf({"fms": fms, "current_follow_symlinks": False})
+                env[meta_p[0]], env[bits_p[0]] = interp.Opaque("META"), interp.Opaque("BITS")
+                env[info_p[0]] = interp.NONE if member == "entry" else interp.some(interp.LazySelf({"mode": interp.some(0o4755) if member == "member-with-mode" else interp.NONE, "name": "m", "size": 1}))
+                try:
+                    got = interp.Interp(call=call, prog=ctx.prog, max_steps=5000).run(ch, env)
+                except interp.Undecided as e:
+                    problems.append("cannot evaluate (%s, lstat %s): %s" % (member, "ok" if lstat else "fails", e))
+                    break
+                nsc += 1
+                want_applied = [("META", "LSTAT")] if (member == "entry" and lstat) else ([("BITS", 0o4755)] if member == "member-with-mode" else [])
+                want = {"__bool": bool(want_applied)}
+                if applied != want_applied or got != want:
+                    problems.append("for %s (lstat %s) it applies %s and answers %s, expected %s and %s" %
+                                    (member.replace("-", " "), "available" if lstat else "failing", applied or "no predicate", got, want_applied or "no predicate", want))
+    ctx.obligation(not problems)
+    if problems:
         ctx.violation("accessor/check_file_mode", ctx.where("searcher::Searcher::check_file_mode"),
-                      "check_file_mode does not apply the Metadata predicate to the entry's lstat record and the u32 predicate to the archive member's mode: %s" % calls)
+                      "check_file_mode must apply the Metadata predicate to the entry's lstat record, the u32 predicate to an archive member's own mode, and answer "
+                      "false where there is neither: %s" % "; ".join(problems[:3]))
+    ctx.floor(nsc, 6, "states of check_file_mode evaluated", "searcher::Searcher::check_file_mode")
     # user / group names
     if "User" in arms:
         for col, need in (("User", ["get_uid", "get_user_by_uid"]), ("Group", ["get_gid", "get_group_by_gid"])):
